@@ -102,6 +102,7 @@ type Specs struct {
 	Ghosts    map[string]*Ghost // key owner.field
 	Contracts map[string]*Contract
 	Preds     map[string]*Pred
+	GlobalFacts map[string]*Expr // assumed about the value of a library global at every load (identifier: value)
 }
 
 type Pred struct {
@@ -111,7 +112,7 @@ type Pred struct {
 }
 
 func NewSpecs() *Specs {
-	return &Specs{Consts: map[string]*Expr{}, Funs: map[string]*SpecFun{}, Ghosts: map[string]*Ghost{}, Contracts: map[string]*Contract{}, Preds: map[string]*Pred{}}
+	return &Specs{Consts: map[string]*Expr{}, Funs: map[string]*SpecFun{}, Ghosts: map[string]*Ghost{}, Contracts: map[string]*Contract{}, Preds: map[string]*Pred{}, GlobalFacts: map[string]*Expr{}}
 }
 
 var tagRe = regexp.MustCompile(`^\[([A-Za-z0-9_, ]+)\]\s*`)
@@ -264,6 +265,13 @@ func (sp *Specs) LoadFile(path string) error {
 			} else {
 				sp.Lemmas = append(sp.Lemmas, l)
 			}
+		case strings.HasPrefix(flat, "globalfact "):
+			kv := strings.SplitN(flat[len("globalfact "):], "::", 2)
+			e, err := ParseExpr(kv[1], where)
+			if err != nil {
+				return err
+			}
+			sp.GlobalFacts[strings.TrimSpace(kv[0])] = e
 		case strings.HasPrefix(flat, "contract "):
 			ls := strings.Split(it, "\n")
 			key := strings.TrimSpace(ls[0][len("contract "):])
